@@ -249,6 +249,8 @@ func c10Work(w *h.W) {
 	// S6: the number of clauses of a predicate swept 1..24 (40), first head arguments of every kind, loaded and
 	// asserted, called with every first argument in every representation (shared with C01 F7)
 	clauseCountSweep(w, "S6 clause-count")
+	// S8: the clauses of a predicate standing in two or three runs of every length with other predicates between them
+	discontiguousRuns(w, "S8 discontiguous runs")
 	u1, u2 := c10Universe(w.Thorough())
 	paths := []string{"consult", "assertz"}
 	// S1: facts with every argument term
@@ -491,7 +493,7 @@ func c10Replay(b []byte) (string, string, bool) {
 func init() {
 	h.Register(&h.Check{
 		ID: "C10",
-		Rule: "all clause terms of the enumerated families: S1 facts h(T) for every T of a universe of argument terms (all terms of depth <= 1 over {a,X,Y,[],\"ab\",f/1,g/2} with lists in bracket, [H|T], './2 and string notation, plus one more level around each); S2 rules h(T1,R) :- e(T2,R) for pairs of universe terms; S3 hand-picked shapes (two body goals, variable goals, top-level disjunctions, if-then-else, cuts, 17+ variables, strings under each double_quotes flag); S4 16 clause shapes x 13 bindings made in the asserting query before assertz (incl. variables inside list elements), observed from later queries; each through Exec and through assertz; S5 every clause of bootstrap.pl. Non-trivial = decided case; distinct = case text. S6: the number of clauses of one predicate swept 1..24 (40) with first head arguments of every kind (atoms, numbers, strings, lists, compounds, variables, non-ASCII), loaded and asserted, called with 29 first arguments in every representation. S7: 11 queries that assert a clause and look it up again (clause/2, retract/1, retractall/1) within the same query with the query's unbound variables at other positions of the pattern.",
+		Rule: "all clause terms of the enumerated families: S1 facts h(T) for every T of a universe of argument terms (all terms of depth <= 1 over {a,X,Y,[],\"ab\",f/1,g/2} with lists in bracket, [H|T], './2 and string notation, plus one more level around each); S2 rules h(T1,R) :- e(T2,R) for pairs of universe terms; S3 hand-picked shapes (two body goals, variable goals, top-level disjunctions, if-then-else, cuts, 17+ variables, strings under each double_quotes flag); S4 16 clause shapes x 13 bindings made in the asserting query before assertz (incl. variables inside list elements), observed from later queries; each through Exec and through assertz; S5 every clause of bootstrap.pl. Non-trivial = decided case; distinct = case text. S6: the number of clauses of one predicate swept 1..24 (40) with first head arguments of every kind (atoms, numbers, strings, lists, compounds, variables, non-ASCII), loaded and asserted, called with 29 first arguments in every representation. S7: 11 queries that assert a clause and look it up again (clause/2, retract/1, retractall/1) within the same query with the query's unbound variables at other positions of the pattern. S8: predicates whose clauses stand in two or three runs (discontiguous/1) of every length 1..17 (34) with 1..3 clauses of other predicates between them, against the reference's reading of the same text.",
 		Explanation: "state = a fresh real interpreter with the clause added through one path; transitions = (1) clause/2 listing, (2) calls with every argument pattern, compared with the reference machine executing the SOURCE term, and (3) decompilation of the stored bytecode (read through a verif-tagged accessor injected with -overlay) by an independent inverse of the clause compiler, compared with the source term up to variable renaming",
 		Assumptions: []string{"clause/2 bodies are compared modulo call(V) ~ V for an unbound goal variable (ISO stores call(V); the property asks for a variant of the given term)", "bootstrap.pl is read by the harness's own reader (fixed operator table) - not by the implementation's parser"},
 		Work:        c10Work,
